@@ -176,3 +176,41 @@ package parse
 //@   assert @store:F.sysl.Endpoint.Attrs [endpoint-attrs-created-once] target.Attrs == nil
 //@   assert @mapupdate:map[string]*sysl.Endpoint [endpoint-created-only-when-absent] !in(mapkey, maptarget) || maptarget[mapkey] == nil
 //@   ensures [endpoint-location-at-return] ownStart(restEndpoint.SourceContext, ctx) && len(restEndpoint.SourceContexts) >= 1 && ownStart(restEndpoint.SourceContexts[len(restEndpoint.SourceContexts)-1], ctx)
+
+// ---- C02: the model says what the text declares (mapping tables and per-callback updates)
+
+// A statement is appended — exactly once, at the end, nothing else touched — to the statement list of whichever
+// block is open (endpoint, if/else, group, alt choice, loop, for-each), however many statements the block already has.
+//@ func (*TreeShapeListener).addToCurrentScope
+//@   maypanic
+//@   requires len(s.stmt_scope) > 0
+//@   ghostset @store:F.sysl.%.Stmt appended
+//@   assert @store:F.sysl.%.Stmt [appended-at-end] len(stored) == len(target.Stmt) + 1 && stored[len(stored)-1] == stmt && forall(i, 0, len(target.Stmt), stored[i] == target.Stmt[i])
+//@   ensures [statement-appended] ghost("appended")
+
+// Enum values are parsed as full 64-bit decimal numbers.
+//@ func (*TreeShapeListener).EnterEnum
+//@   requires ctx != nil && ctx.BaseParserRuleContext != nil
+//@   assert @call:strconv.ParseInt [decimal-64-bit] arg1 == 10 && arg2 == 64
+//@   assert @store:F.sysl.%.SourceContext [location-is-own-rule-start] ownStart(stored, ctx)
+//@   assert @store:F.sysl.%.SourceContexts [one-location-appended] len(stored) == len(target.SourceContexts) + 1 && ownStart(stored[len(stored)-1], ctx)
+
+// set of / sequence of: optionality and attributes move from the element type to the new wrapper type; the element
+// type itself is never optional.
+//@ func (*TreeShapeListener).exitSetOrSequence_type
+//@   assert @store:F.sysl.Type.Opt [opt-moves-to-wrapper] ite(fresh(target), stored == s.currentType().Opt, target == s.currentType() || stored == false)
+//@   assert @store:F.sysl.Type.Attrs [attrs-move-to-wrapper] ite(fresh(target), stored == s.currentType().Attrs, stored == nil)
+
+// int32 / int64 / float32 / float64 are INT / FLOAT with the bit width (and, for integers, the value range) of the name.
+//@ spec upperName(native iface) string = strings.ToUpper(native.GetText())
+//@ func iface:github.com/antlr/antlr4/runtime/Go/antlr.TerminalNode.GetText
+//@   trusted
+//@   deterministic
+//@ func primitiveFromNativeDataType
+//@   ensures [nil] native == nil ==> result0 == nil && result1 == nil
+//@   ensures [int32] native != nil && upperName(native) == "INT32" && result1 != nil ==> result1.BitWidth == 32 && result1.Range != nil && result1.Range.Min.GetI() == -2147483648 && result1.Range.Max.GetI() == 2147483647
+//@   ensures [int64] native != nil && upperName(native) == "INT64" && result1 != nil ==> result1.BitWidth == 64 && result1.Range != nil && result1.Range.Min.GetI() == -9223372036854775808 && result1.Range.Max.GetI() == 9223372036854775807
+//@   ensures [float32] native != nil && upperName(native) == "FLOAT32" && result1 != nil ==> result1.BitWidth == 32 && result1.Range == nil
+//@   ensures [float64] native != nil && upperName(native) == "FLOAT64" && result1 != nil ==> result1.BitWidth == 64 && result1.Range == nil
+//@   ensures [other-names-unconstrained] native != nil && upperName(native) != "INT32" && upperName(native) != "INT64" && upperName(native) != "FLOAT32" && upperName(native) != "FLOAT64" ==> result1 == nil
+//@   ensures [always-a-primitive] native != nil ==> result0 != nil
